@@ -184,7 +184,7 @@ def _(algorithm: HASHES) -> int:
 
 
 @contract("spsdk.crypto.hash:get_hash")
-def _(data: bytes, algorithm: HASHES) -> bytes:
+def _(data: Union[bytes, bytearray], algorithm: HASHES) -> bytes:
     returns(HASH(algorithm.label, data))
     pure()
 
